@@ -255,4 +255,86 @@ theorem genNameBoth_spec (zf b : Zip) (md5 : Nat) (c : Content) :
       exact List.mem_append_right _ (read_ne_none_mem b n h)
   · simp [names]
 
+/-! ### more about the suffix search: everything it walked past was occupied by OTHER content -/
+
+theorem searchFrom_prefix_busy (busy : Nat → Bool) : ∀ fuel n j, n ≤ j → j < searchFrom busy fuel n →
+    busy j = true := by
+  intro fuel
+  induction fuel with
+  | zero => intro n j h1 h2; simp only [searchFrom] at h2; omega
+  | succ f ih =>
+    intro n j h1 h2
+    simp only [searchFrom] at h2
+    by_cases hb : busy n = true
+    · simp only [hb, if_true] at h2
+      by_cases e : j = n
+      · rw [e]; exact hb
+      · exact ih (n + 1) j (by omega) h2
+    · simp only [hb] at h2
+      simp at h2; omega
+
+/-- the name handed out is `<md5>`, or `<md5>_k` where `<md5>` and every `<md5>_j`, `j < k`, exist (as far
+    as `rd` can see) and hold content different from `c` -/
+theorem genNameR_chain (rd : Name → Option Content) (fuel md5 : Nat) (c : Content) (k : Nat)
+    (h : (genNameR rd fuel md5 c).1 = .sig ⟨md5, some k⟩) :
+    (∃ d, rd (.sig ⟨md5, none⟩) = some d ∧ d ≠ c) ∧ ∀ j, j < k → ∃ d, rd (.sig ⟨md5, some j⟩) = some d ∧ d ≠ c := by
+  have hdiff : ∀ n, probe rd n c = .differs → ∃ d, rd n = some d ∧ d ≠ c := by
+    intro n hp
+    unfold probe at hp
+    split at hp
+    · cases hp
+    · rename_i d hd
+      by_cases e : d = c
+      · simp [e] at hp
+      · exact ⟨d, hd, e⟩
+  unfold genNameR at h
+  cases h0 : probe rd (.sig ⟨md5, none⟩) c with
+  | same => simp [h0] at h
+  | absent => simp [h0] at h
+  | differs =>
+    simp only [h0] at h
+    have hk : searchFrom (fun n => decide (probe rd (.sig ⟨md5, some n⟩) c = .differs)) fuel 0 = k := by
+      cases h1 : probe rd (.sig ⟨md5, some (searchFrom
+          (fun n => decide (probe rd (.sig ⟨md5, some n⟩) c = .differs)) fuel 0)⟩) c <;>
+        simp only [h1] at h <;> injection h with h <;> injection h with _ h <;> injection h
+    refine ⟨hdiff _ h0, ?_⟩
+    intro j hj
+    have := searchFrom_prefix_busy (fun n => decide (probe rd (.sig ⟨md5, some n⟩) c = .differs)) fuel 0 j
+      (Nat.zero_le _) (by rw [hk]; exact hj)
+    exact hdiff _ (by simpa using this)
+
+theorem names_unionZip_nodup (b : Zip) : ∀ zf : Zip, (names zf).Nodup → (names (unionZip zf b)).Nodup := by
+  induction b with
+  | nil => intro zf h; exact h
+  | cons e t ih =>
+    intro zf h
+    simp only [unionZip, List.foldl_cons]
+    exact ih _ (names_upsert_nodup zf e.1 e.2 h)
+
+theorem mem_of_read {z : Zip} {n : Name} {c : Content} (h : read z n = some c) : (n, c) ∈ z := by
+  induction z with
+  | nil => simp [read] at h
+  | cons e t ih =>
+    obtain ⟨k, d⟩ := e
+    by_cases hk : k = n
+    · subst hk; simp only [read, if_true, Option.some.injEq] at h; subst h; simp
+    · simp only [read, hk, if_false] at h
+      exact List.mem_cons_of_mem _ (ih h)
+
+theorem read_of_mem {z : Zip} (hnd : (names z).Nodup) {n : Name} {c : Content} (h : (n, c) ∈ z) :
+    read z n = some c := by
+  induction z with
+  | nil => cases h
+  | cons e t ih =>
+    obtain ⟨k, d⟩ := e
+    simp only [names, List.map_cons, List.nodup_cons] at hnd
+    simp only [List.mem_cons, Prod.mk.injEq] at h
+    rcases h with ⟨e1, e2⟩ | h
+    · subst e1; subst e2; simp [read]
+    · have hk : k ≠ n := by
+        intro e; subst e
+        exact hnd.1 (List.mem_map.2 ⟨(k, c), h, rfl⟩)
+      simp only [read, hk, if_false]
+      exact ih hnd.2 h
+
 end Sm.Storage
